@@ -7,6 +7,7 @@ from .._history cimport QuestionHistory
 from .._protocol.incoming cimport DNSIncoming
 from .._services.info cimport ServiceInfo
 from .._services.registry cimport ServiceRegistry
+from .._utils.time cimport current_time_millis
 from .answers cimport (
     QuestionAnswers,
     construct_outgoing_multicast_answers,
@@ -109,6 +110,7 @@ cdef class QueryHandler:
     @cython.locals(
         first_packet=DNSIncoming,
         ucast_source=bint,
+        now=double,
     )
     cpdef void handle_assembled_query(
         self,
